@@ -63,6 +63,14 @@ func verifPopulate(st *State) {
 	st.Candidates.Create(B, B, B, Q, 20, 1, 0)
 	st.Candidates.SetOnline(P)
 	st.Candidates.SetOnline(Q)
+	if verifConfig("step") == 7 {
+		// three more candidates whose public keys are replaced in block 2 (the
+		// old keys enter the block list, a map that Commit must write in a
+		// canonical order)
+		for k := byte(3); k <= 5; k++ {
+			st.Candidates.Create(C, C, C, verifK(k), 10, 1, 0)
+		}
+	}
 	for i, d := range []types.Address{A, B, C} {
 		v := verifE18(int64(1500 + i))
 		st.Candidates.Delegate(d, P, 0, v, v)
@@ -139,6 +147,14 @@ func verifObserve(st *State) *verifView {
 		for j, d := range []types.Address{A, B, C} {
 			v.add("stake."+n+"."+string(rune('A'+j)), st.Candidates.GetStakeValueOfAddress(pk, d, 0))
 		}
+	}
+	for k := byte(3); k <= 5; k++ {
+		blocked := uint64(0)
+		if st.Candidates.IsBlockedPubKey(verifK(k)) {
+			blocked = 1
+		}
+		v.add("cand.blocked."+string(rune('0'+k)), u(blocked))
+		v.add("cand.replaced."+string(rune('0'+k)), u(uint64(st.Candidates.ID(verifK(k+10)))))
 	}
 	for i, val := range st.Validators.GetValidators() {
 		n := string(rune('0' + i))
@@ -236,6 +252,10 @@ func verifBlock2(st *State) {
 		st.Candidates.EditCommission(P, 10, 150)
 	case 6: // candidate addresses
 		st.Candidates.Edit(Q, A, A, A)
+	case 7: // replaced public keys: three entries in the block list
+		for k := byte(3); k <= 5; k++ {
+			st.Candidates.ChangePubKey(verifK(k), verifK(k+10))
+		}
 	case 4: // pools, coins, app
 		st.SwapV2.PairSellWithOrders(1, 0, verifE18(1), big.NewInt(0))
 		st.Coins.SubVolume(1, big.NewInt(1))
